@@ -722,12 +722,11 @@ Definition BAR : N := 124.
 Definition derive_network (s : settings) : settings :=
   setS FPromptPattern (join [BAR] (getL FPrivilegeLevels s)) s.
 (* netconf.NewDriver: withNetconfConnection(true) is appended to the list (lands on the SSHArgs when
-   there are any); netconf.Driver.Logger is not assigned by any option, so it always becomes a new
-   instance without loggers; the prompt pattern is forced to the 1.0 delimiter. *)
+   there are any); netconf.Driver.Logger is the generic driver's (`Logger: gd.Logger`, since the fix
+   of finding C19:netconf-logger-dropped); the prompt pattern is forced to the 1.0 delimiter. *)
 Definition derive_netconf (c : ctx) (s : settings) : settings :=
   setS FPromptPattern rx_ncd_v1Dot0Delim_src
-    (setN FLogger 0
-       (if exists_obj c OSSHArgs then setB FNetconfConnection true s else s)).
+    (if exists_obj c OSSHArgs then setB FNetconfConnection true s else s).
 
 Definition derive (c : ctx) (s : settings) : settings :=
   match c_kind c with
@@ -827,12 +826,10 @@ Definition derived (k : ctor_kind) (f : field) : bool :=
   | Generic => false
   | Network => field_beq f (FS FPromptPattern)
   | Netconf => field_beq f (FS FPromptPattern) || field_beq f (FB FNetconfConnection)
-               || field_beq f (FN FLogger)
   end.
 
 (* what of the record is reachable from the constructed driver: fields of objects that exist;
-   netconf.NewDriver throws the generic driver away and keeps only its TransportType (and its own,
-   fresh, Logger) *)
+   netconf.NewDriver throws the generic driver away and keeps only its Logger and TransportType *)
 Definition visible (c : ctx) (f : field) : bool :=
   exists_obj c (field_obj f)
   && negb (ctor_kind_beq (c_kind c) Netconf
@@ -843,7 +840,8 @@ Definition visible (c : ctx) (f : field) : bool :=
    multiples of 1/4 (exact in binary, so `time.Duration(f * float64(time.Second))` is exact). *)
 Inductive yval :=
 | YInt (n : N) | YFloat4 (quarters : N) | YStr (s : bytes) | YBool (b : bool)
-| YSeq (l : list bytes)          (* decoded as []interface{}, never []string *)
+| YSeq (l : list bytes)          (* a sequence of strings; decoded as []interface{}, never []string *)
+| YSeqOther                      (* a sequence with some non-string element *)
 | YNull.
 
 Definition quarter_ns : N := 250000000.
@@ -869,8 +867,9 @@ Definition platform_option (name : bytes) (v : yval) : result opt :=
   else if beqb name (bs "transport-pty-height") then int_of WithTermHeight
   else if beqb name (bs "transport-pty-width") then int_of WithTermWidth
   else if beqb name (bs "transport-system-open-args") then
-    (* `opt.Value.([]string)`: no YAML value decodes to []string under interface{} *)
-    Panic
+    (* `.([]string)` never holds for a decoded value; since the fix of finding F12 the decoded
+       []interface{} is accepted when every element is a string *)
+    match v with YSeq l => Ok (WithSystemTransportOpenArgs l) | _ => Panic end
   else Panic.   (* unknown name: the slot stays a nil func and is called by NewDriver *)
 
 (* the names handled above, for the tie with the generated list of platform/options.go *)
